@@ -12,6 +12,9 @@ func genAll(env vh.Env, r *vh.Rand) []Case {
 	for i, n := 0, env.N(400, 10); i < n; i++ {
 		cases = append(cases, genSiteCase(r.Fork()))
 	}
+	for i, n := 0, env.N(500, 10); i < n; i++ {
+		cases = append(cases, genSilCase(r.Fork()))
+	}
 	cases = append(cases, genSyntax(env, r)...)
 	return cases
 }
